@@ -104,8 +104,8 @@ def run_case(case, expect_fault=False):
     kw = {k: v for k, v in combo.items() if v is not None}
     real_items = [cbmod.realize(it) for it in items]
     arg_items = {"list": list(real_items), "tuple": tuple(real_items), "generator": (x for x in real_items)}[case.get("items_as", "list")]
-    cb = cbmod.process_item_kw if case.get("cb") == "kw" else cbmod.process_item
-    extra = {"bonus": 2} if case.get("cb") == "kw" else {}
+    cb = {"kw": cbmod.process_item_kw, "opts": cbmod.process_item_opts}.get(case.get("cb"), cbmod.process_item)
+    extra = {"bonus": 2} if case.get("cb") in ("kw", "opts") else {}
     obs = {"raised": None, "hang": False}
     res = None
     coop = case.get("ctx") == "coop"
@@ -152,7 +152,7 @@ def run_case(case, expect_fault=False):
         # a death is legitimate only if the case injected one: an ordinary exception from the callback must
         # not take the worker down
         died = any(c not in (0, None) for c in obs["worker_exitcodes"])
-        injected = any(cbmod.normalize(it).get("mode") in ("die", "exit") for it in items)
+        injected = any(cbmod.normalize(it).get("mode") in ("die", "exit", "kill9") for it in items)
         if died and not injected:
             raise Violation(f"a worker process ended with a non-zero status although no death was injected ({obs['child_errors']}); parallel_add outcome: {obs['raised'] or 'returned'}", "worker-killed-by-callback-exception")
         if died:
@@ -194,7 +194,7 @@ def check_result(case, res, obs):
     items = case["items"]
     combo = case["combo"]
     n_workers = case["n_workers"]
-    bonus = 2 if case.get("cb") == "kw" else 0
+    bonus = 2 if case.get("cb") in ("kw", "opts") else 0
     present = [k for k in ("cms_args", "hh_args", "hll_args") if combo.get(k) is not None]
     ctx_s = f"n_workers={n_workers} schedule={case['schedule']}"
     # every item is handed to the callback exactly once (judged by the callback's own log, not by how the library moves
